@@ -717,5 +717,8 @@ PROPS["C20"]["explanation"] += " (PRODBOUND) VSread/VSwrite compare the record c
 PROPS["C16"]["rules"] = PROPS["C16"]["rules"] + [rules_errors.rule_fallback_only_when_absent]
 PROPS["C16"]["explanation"] += " (FALLBACK) the SD open path falls back on the old-style reader only when the SD metadata is absent, not when reading it failed."
 
+PROPS["C10"]["rules"] = PROPS["C10"]["rules"] + [rules_attr.rule_retype_refused_before_change]
+PROPS["C10"]["explanation"] += " (RETYPEFIRST) SDIgetcoordvar refuses a wider type for written scale values before it re-types the variable."
+
 NOT_APPLICABLE = {}
 
